@@ -1191,7 +1191,9 @@ func runL2(args []string) {
 		rep.Notes = append(rep.Notes, "degraded mode: hooks not available, the bind model is fed the parser model's nodes")
 	}
 	rep.Rule = "queries from the grammar over the zoo's type names and tags (3/4 conventional statements, 1/4 soup/mutations), " +
-		"samples and arguments built by reflection with perturbations (missing/extra/duplicate/shadow/pointer/nil/anonymous; forms T,*T,[]T,[]*T,*[]T,**T); " +
+		"samples and arguments built by reflection with perturbations (missing/extra/duplicate (also in pointer form with other values)/shadow/pointer/nil/anonymous/one bulk argument cut to one element; forms T,*T,[]T,[]*T,*[]T,**T); " +
+		"every statement also run: with permuted samples and arguments, interleaved with another Query of the same Statement, after a first run (other values, the unperturbed arguments, the same number of inputs split differently), " +
+		"with sibling statements prepared between Prepare and run, with texts differing in white space only prepared first; plus directed scenarios (very long SQL, concurrent first use of types, first-use order, concurrent growth of input counts); " +
 		"non-trivial = Prepare succeeded and at least one input or output was bound, or a rejection by Prepare/Query; distinct by hash of query+sample types+argument values"
 	r := rng.New(*seed)
 	g := qgen.New(r.Fork(), zooSchema())
